@@ -169,23 +169,31 @@ def handleC04 (j : Json) : Except String Verdict := do
   let g1 ← getObj o "g1"
   let tail := s!"; s={showBytes (src.take 300)}; formatted={showBytes (f1.take 300)}"
   -- model-vs-impl: the abstract evaluator on its sub-fragment
+  let prog : Option (List D2V.FmtSem.Decl) := match o.getObjVal? "ast" with
+    | .error _ => none
+    | .ok ja => match nodeOf ja with
+        | .ok a => D2V.FmtSem.ofAst a
+        | .error _ => none
   let modelMis : Option String ← (do
-    match o.getObjVal? "ast" with
-    | .error _ => pure none
-    | .ok ja =>
-      let a ← nodeOf ja
-      match D2V.FmtSem.ofAst a with
-      | none => pure none
-      | some p =>
-        let want := D2V.FmtSem.render (D2V.FmtSem.evalRoot p)
-        let got ← renderJson g1
-        if want == got then pure none
-        else pure (some s!"evaluator {want} vs Compile {got}"))
+    match prog with
+    | none => pure none
+    | some p =>
+      let want := D2V.FmtSem.render (D2V.FmtSem.evalRoot p)
+      let got ← renderJson g1
+      if want != got then pure (some s!"evaluator {want} vs Compile(s) {got}")
+      else match o.getObjVal? "g2" with
+        | .error _ => pure none
+        | .ok g2 =>
+          -- the evaluator on the program with its board blocks moved last vs the compile of the formatted text
+          let want2 := D2V.FmtSem.render (D2V.FmtSem.evalRoot (D2V.FmtSem.blDecls p))
+          let got2 ← renderJson g2
+          if want2 != got2 then pure (some s!"evaluator(boardsLast) {want2} vs Compile(Format s) {got2}") else pure none)
   let kwAny := hasFeat o "sf" "kwcase:value" || hasFeat o "sf" "kwcase:key-segment" || hasFeat o "sf" "kwcase:import"
   -- root cause named from the place of the first difference and the source features (see the header)
   let causeOf (whereK what : String) : String :=
     if what == "value-case" && kwAny then "value-case"
     else if (whereK == "scenario" || whereK == "step") && hasFeat o "sf" "boards:decl-after-scenarios-or-steps" then "board-order"
+    else if whereK != "root" && hasFeat o "sf" "boards:decl-after-layers" && hasFeat o "sf" "glob:triple" then "board-order-glob"
     else if whereK != "root" && hasFeat o "sf" "boards:empty-entry" then "empty-board-map"
     else if hasFeat o "sf" "boards:quoted-key" then "quoted-board-key"
     else if hasFeat o "sf" "kwcase:key-segment" then "key-case"
